@@ -31,6 +31,10 @@ func init() {
 }
 
 func execC01(c *hlib.Ctx, tok []string) string {
+	return guarded(c, func() string { return execC01Body(c, tok) })
+}
+
+func execC01Body(c *hlib.Ctx, tok []string) string {
 	if len(tok) != 4 || tok[0] != "dd.run" {
 		return "bad-op"
 	}
@@ -425,7 +429,7 @@ func nontrivialLayout(reps [][]smp) bool {
 
 func genC01(c *hlib.Ctx) {
 	r := c.R
-	n := c.N(6000, 400000)
+	n := budget(c, 6000, 60000)
 	for i := 0; i < n; i++ {
 		l := genLayout(c, false)
 		c.Count(fmt.Sprintf("replicas:%d", len(l.reps)))
@@ -440,7 +444,7 @@ func genC01(c *hlib.Ctx) {
 		}
 	}
 	// malformed stream (recorded, never judged): huge timestamps, unsorted replicas
-	for i := 0; i < c.N(50, 2000); i++ {
+	for i := 0; i < budget(c, 50, 2000); i++ {
 		l := genLayout(c, false)
 		for ri := range l.reps {
 			for si := range l.reps[ri] {
@@ -450,7 +454,7 @@ func genC01(c *hlib.Ctx) {
 		c.Count("malformed:huge-timestamps")
 		c.Do(fmt.Sprintf("dd.run none %s d", fmtReplicas(l.reps)), false)
 	}
-	if c.Tier != "quick" {
+	if c.Tier == "thorough" {
 		exhaustiveC01(c)
 	}
 }
